@@ -476,11 +476,17 @@ def short_mappings_case(draw):
     else:
         src = {"src": "meta", "spec": draw(meta_spec(1, in_project=False))}
     src["transform"] = ["short_chunk", 1, items * 4]
+    if src["src"] == "meta" and draw(st.booleans()):
+        # ... and the module declares as many data chunks as SunVox would for its number of user controllers
+        src["transform"].append(8 + src["spec"]["payload"]["count"])
     slots = sorted(draw(st.lists(st.integers(items, 95), min_size=2, max_size=4, unique=True)))
     eds = [["mod", -1, "pay", "m_count", 96]]
     for k, sl in enumerate(slots):
         # targets outside the embedded project: the mapping itself is what is looked at
         eds.append(["mod", -1, "pay", draw(st.sampled_from(["m_map", "m_map_inplace", "m_map_inplace"])), sl, 0xFFF0 + k, draw(st.integers(0, 40))])
+    for sl in draw(st.lists(st.integers(0, 95), max_size=2, unique=True)):
+        # the newly exposed controllers are given names
+        eds.append(["mod", -1, "pay", "m_label", sl, draw(st.sampled_from(["cutoff", "Res", "mix 2", "vol"])) + str(sl)])
     src["edits"] = eds
     src["saves"] = [draw(st.sampled_from([None, None, "read", "clone"])) for _ in eds]
     return src
@@ -501,7 +507,7 @@ def run_short_mappings(ctx, desc):
         if len(repr(case)) < 1000:
             ctx.sample(case)
 
-    case = {"src": "fixture", "file": "metamodule.sunsynth", "edits": [["mod", -1, "pay", "m_count", 96], ["mod", -1, "pay", "m_map_inplace", 70, 0xFFF0, 7], ["mod", -1, "pay", "m_map_inplace", 80, 0xFFF1, 3]], "saves": [None, None, None]}
+    case = {"src": "fixture", "file": "metamodule.sunsynth", "edits": [["mod", -1, "pay", "m_count", 96], ["mod", -1, "pay", "m_map_inplace", 70, 0xFFF0, 7], ["mod", -1, "pay", "m_map_inplace", 80, 0xFFF1, 3], ["mod", -1, "pay", "m_label", 5, "cutoff"], ["mod", -1, "pay", "m_label", 95, "last one"]], "saves": [None, None, None, None, None]}
     try:
         body(case)
     except PropertyViolation as v_:
